@@ -34,6 +34,8 @@ ASSUMPTIONS = [
     'programs do not print clock values, so outputs are schedule-independent',
 ]
 BATCH = 6
+# one run of the thorough tier may be a full sweep: the reference run plus one suspended re-run per boundary
+RUN_CPU_S = 900
 
 VARS = ['A%', 'B%', 'C!', 'D#', 'S$', 'T$', 'N%', 'E%', 'L%']
 
@@ -535,7 +537,7 @@ def run(case):
                                    'suspend at boundary poll %d, then inside a blocking statement at its wait poll %d' % (k1, op['k2']), judge=False):
                         return
             elif k == 'sweep':
-                for kk in range(1, min(B, 400) + 1):
+                for kk in range(1, min(B, 250) + 1):
                     if not attempt([('b', kk)], 'suspend at boundary poll %d of %d' % (kk, B)):
                         return
                 run.probe('full_sweeps')
